@@ -85,6 +85,26 @@ class _Rename(ast.NodeTransformer):
         return node
 
 
+def _pure_chain(e):
+    while isinstance(e, ast.Attribute):
+        e = e.value
+    return isinstance(e, ast.Name)
+
+
+def _chain_root(e):
+    while isinstance(e, ast.Attribute):
+        e = e.value
+    return e.id
+
+
+def _chain_attrs(e):
+    out = set()
+    while isinstance(e, ast.Attribute):
+        out.add(e.attr)
+        e = e.value
+    return out
+
+
 def _stmt_lists(fn):
     for n in ast.walk(fn):
         for field in ("body", "orelse", "finalbody"):
@@ -270,6 +290,9 @@ def inline_new_helpers(modules):
                         mapping[p_] = a_.id                # x = helper(x): the in-out variable itself
                     elif isinstance(a_, ast.Constant) and p_ not in hstores:
                         mapping[p_] = a_
+                    elif p_ not in hstores and _pure_chain(a_) and _chain_root(a_) not in hstores and _chain_root(a_) not in targets and \
+                            not (_chain_attrs(a_) & {x.attr for s_ in new_body for x in ast.walk(s_) if isinstance(x, ast.Attribute) and isinstance(x.ctx, (ast.Store, ast.Del))}):
+                        mapping[p_] = a_                   # helper(self.busy): a read-only parameter bound to an attribute nobody re-binds meanwhile is that attribute
                     elif isinstance(a_, ast.Name) and p_ in hstores and _dead_after(caller, st, a_.id) and list(arg_names.values()).count(a_.id) == 1:
                         mapping[p_] = a_.id                # the helper reassigns its parameter, and the caller never looks at that variable again
                     else:
